@@ -207,7 +207,7 @@ class Impl:
             disc = node.field_space.orig_name in self.const.VALID_DISCONTINUOUS_NAMES
             return ("L", self.LT[node.loop_type], disc, tuple(self.conv(c) for c in node.loop_body.children))
         if type(node) in self.DIRS:
-            return ("D", self.DIRS[type(node)], tuple(self.conv(c) for c in node.dir_body.children))
+            return ("D", self.dirkind(node), tuple(self.conv(c) for c in node.dir_body.children))
         if isinstance(node, self.psyGen.Kern):
             args = tuple((self.ACCS[a.access.name], self.cont_of(a)) for a in node.arguments.args)
             return ("K", isinstance(node, self.psyGen.CodedKern), bool(node.is_reduction), args)
@@ -216,6 +216,21 @@ class Impl:
         if isinstance(node, self.psyGen.GlobalSum):
             return ("O",)
         raise ValueError("node type outside the model: " + type(node).__name__)
+
+    def dirkind(self, node):
+        """model directive kind; for ACCLoopDirective the `seq` clause is read from the directive actually
+        produced: its attribute and the text it generates must agree"""
+        kind = self.DIRS[type(node)]
+        if kind == "DAccLoop":
+            text = node.begin_string().lower().split()
+            if node.sequential != ("seq" in text):
+                raise ValueError("ACCLoopDirective.sequential=%r but text is %r" % (node.sequential, text))
+            if "seq" in text:
+                return "DAccLoopSeq"
+        return kind
+
+    def parallel_dir(self, node):
+        return type(node) in self.DIRS and self.dirkind(node) != "DAccLoopSeq"
 
     def tree(self, sched):
         return tuple(self.conv(c) for c in sched.children)
@@ -239,16 +254,20 @@ class Impl:
         """(A, B): A = list of (loop, [offending args]) ; B = list of colours loops below a directive"""
         va, vb = [], []
         for d in sched.walk(self.LOOPDIRS):
-            if type(d) not in self.DIRS:
-                continue
+            if type(d) not in self.DIRS or not self.parallel_dir(d):
+                continue            # `acc loop seq`: the loop below is not a parallel loop
             for ch in d.dir_body.children:
                 if isinstance(ch, self.LFRicLoop) and ch.loop_type == "":
                     bad = [a for k in ch.walk(self.psyGen.Kern) for a in k.arguments.args if self.incrementing(a)]
                     if bad:
                         va.append((ch, bad, d))
         for lp in sched.walk(self.LFRicLoop):
-            if lp.loop_type == "colours" and lp.ancestor(tuple(self.DIRS)):
-                vb.append(lp)
+            if lp.loop_type == "colours":
+                anc = lp.parent
+                while anc is not None and not self.parallel_dir(anc):
+                    anc = anc.parent
+                if anc is not None:
+                    vb.append(lp)
         return va, vb
 
     # ---- one transformation
@@ -257,12 +276,23 @@ class Impl:
         kids = self.container(sched, op[1])
         trans = self.TRANS[op[0]]()
         self.da = None
+        options = None
         if op[0] in ("OOmpParallel", "OAccParallel"):
             target = list(kids[op[2]:op[2] + op[3]])
         else:
             target = kids[op[2]]
+            if op[0] == "OAccLoop" and len(op) > 3:
+                seq, gang, vec, col2, indep = op[3]
+                options = {"sequential": seq, "gang": gang, "vector": vec, "independent": indep}
+                if col2:
+                    options["collapse"] = 2
+            elif op[0] == "OOmpDo" and len(op) > 3:
+                options = {"reprod": op[3]}
         try:
-            trans.apply(target)
+            if options is None:
+                trans.apply(target)
+            else:
+                trans.apply(target, options)
             return True, self.da or "DaFalse", None
         except self.TransformationError:
             return False, self.da or "DaFalse", "TransformationError"
@@ -289,7 +319,8 @@ def coq_tree(t):
 def coq_op(op, da):
     p = core.coq_list(str(i) for i in op[1])
     if op[0] == "OAccLoop":
-        return "OAccLoop %s %d %s" % (p, op[2], da)
+        o = op[3] if len(op) > 3 else ACC_DEFAULT
+        return "OAccLoop %s %d %s %s" % (p, op[2], da, " ".join("true" if x else "false" for x in o[:4]))
     if op[0] in ("OOmpParallel", "OAccParallel"):
         return "%s %s %d %d" % (op[0], p, op[2], op[3])
     return "%s %s %d" % (op[0], p, op[2])
@@ -299,6 +330,13 @@ def coq_case(tb, op, da, acc, ta, pa, pb):
     """tb, ta = numbers of the trees in the scratch tree library (Definition t<k>)"""
     b = lambda x: "true" if x else "false"      # noqa: E731
     return "mk t%d (%s) %s t%d %s %s" % (tb, coq_op(op, da), b(acc), ta, b(pa), b(pb))
+
+
+ACC_DEFAULT = (False, False, False, False, True)      # sequential, gang, vector, collapse(2), independent
+ACC_GRID = [ACC_DEFAULT, (True, False, False, False, True), (True, True, False, False, True),
+            (True, False, True, False, False), (True, True, True, True, True), (False, True, True, False, True),
+            (False, True, False, False, False), (False, False, False, True, True), (True, False, False, True, True)]
+ACC_DEEP = [ACC_DEFAULT, (True, True, False, False, True), (True, False, True, True, True)]
 
 
 def containers(t, path=()):
@@ -319,8 +357,17 @@ def enumerate_ops(t, all_targets=True):
     for path, kids in containers(t):
         for i in range(len(kids)):
             if all_targets or kids[i][0] in ("L", "D"):
-                for name in ("OColour", "OOmpParDo", "OOmpDo", "OAccLoop"):
+                for name in ("OColour", "OOmpParDo", "OOmpDo"):
                     ops.append((name, path, i))
+                if kids[i][0] == "L":
+                    # option grids: sequential x gang x vector x collapse x independent; reprod
+                    for o in (ACC_GRID if all_targets or len(path) <= 1 else ACC_DEEP):
+                        ops.append(("OAccLoop", path, i, o))
+                    if all_targets:
+                        ops.append(("OOmpDo", path, i, True))
+                        ops.append(("OOmpDo", path, i, False))
+                else:
+                    ops.append(("OAccLoop", path, i, ACC_DEFAULT))
             for n in range(1, len(kids) - i + 1):
                 ops.append(("OOmpParallel", path, i, n))
                 ops.append(("OAccParallel", path, i, n))
@@ -367,6 +414,13 @@ class Explorer:
         self.failures = {}         # key -> (what, replay dict)
         self.premise_bad = []
         self.other_exc = {}
+
+    @staticmethod
+    def _is_loop(t, op):
+        kids = t
+        for i in op[1]:
+            kids = kids[i][3] if kids[i][0] == "L" else kids[i][2]
+        return kids[op[2]][0] == "L"
 
     def tid(self, t):
         if t not in self.tree_ids:
@@ -424,6 +478,9 @@ class Explorer:
                     ctx.hist("history_length", depth + 1)
                     if op[0] == "OAccLoop" and impl.da is not None:
                         ctx.hist("dependency_analysis_outcome", da)
+                    if op[0] == "OAccLoop" and before and self._is_loop(before, op):
+                        ctx.hist("acc_loop_options(seq,gang,vector,collapse2,independent)",
+                                 "%s:%s" % ("".join("T" if x else "F" for x in op[3]), "accepted" if acc else "refused"))
                     if exc not in (None, "TransformationError"):
                         self.other_exc.setdefault(exc, {"spec": spec, "history": list(hist), "op": op})
                     if cs not in self.cases:
@@ -605,6 +662,51 @@ def eval_cases(ctx, per, check_fn, cases, shard=600):
     return sorted(failing)
 
 
+def gen_text_scenarios(ctx, ex):
+    """ACCLoopTrans with `sequential` and every gang/vector/independent combination on (A) the uncoloured
+    GH_INC loop and (B) the loop over colours of 1_single_invoke.f90, enclosed in an ACC parallel region;
+    code is generated and the directive in front of `DO cell` / `DO colour` must carry `seq`."""
+    impl = ex.impl
+    spec = {"kind": "file", "file": "1_single_invoke.f90", "invoke": 0, "dm": False}
+    n = 0
+    for gang in (False, True):
+        for vec in (False, True):
+            for indep in (True, False):
+                opts = (True, gang, vec, False, indep)
+                for scen, var in (("inc-loop", "cell"), ("colours-loop", "colour")):
+                    try:
+                        psy, sched = ex.corpus.build(spec)
+                    except Exception:                       # noqa: BLE001
+                        return n
+                    hist = []
+                    if scen == "colours-loop":
+                        hist.append(("OColour", (), 0))
+                    hist.append(("OAccLoop", (), 0, opts))
+                    hist.append(("OAccParallel", (), 0, 1))
+                    if not all(impl.apply(sched, op)[0] for op in hist):
+                        continue
+                    try:
+                        impl.T.ACCEnterDataTrans().apply(sched)
+                        lines = str(psy.gen).split("\n")
+                    except Exception as e:                  # noqa: BLE001 - generation refused: nothing emitted
+                        ctx.hist("gen_text_scenario", "generation refused: " + type(e).__name__)
+                        continue
+                    n += 1
+                    for k, line in enumerate(lines):
+                        t = line.strip().lower()
+                        prev = lines[k - 1].strip().lower() if k else ""
+                        if (t.startswith("do %s=" % var) or t.startswith("do %s =" % var)) and \
+                                prev.startswith("!$acc loop") and "seq" not in prev.split():
+                            ex.failures.setdefault(
+                                "ACCLoopTrans/generated-parallel-directive-on-" + scen,
+                                ("ACCLoopTrans with options sequential=True emits '%s' in front of '%s'" % (prev, line.strip()),
+                                 {"spec": spec, "history": [list(o) for o in hist], "generated": lines[k - 1:k + 1],
+                                  "options": dict(zip(("sequential", "gang", "vector", "collapse2", "independent"), opts)),
+                                  "replay": "./check C23 --replay <this file>"}))
+                    ctx.hist("gen_text_scenario", "%s checked" % scen)
+    return n
+
+
 def run(ctx):
     ctx.cov["rule"] = ("case = one step (abstract tree before, transformation + target, accepted?, tree after) taken from "
                        "breadth-first histories (length <= 3 quick / <= 5 thorough, frontier sampled beyond the width) of "
@@ -661,6 +763,7 @@ def run(ctx):
         ctx.hist("invoke_kind", "%s dm=%s" % (spec["kind"], spec["dm"]))
         ctx.hist("distinct_trees_per_invoke", "%d+" % (min(n // 10 * 10, 200)))
     replay_witnesses(ctx, ex)
+    ctx.notes["generated_code_scenarios_checked"] = gen_text_scenarios(ctx, ex)
     ctx.notes["invokes_explored"] = nbuilt
     ctx.notes["other_exceptions"] = {k: v for k, v in ex.other_exc.items()}
     for cs, d in list(ex.cases.items())[:: max(1, len(ex.cases) // 5)]:
@@ -723,7 +826,7 @@ def replay(ctx, path):
     corpus = Corpus(ctx.scratch)
     psy, sched = corpus.build(rp["spec"])
     for op in rp["history"]:
-        op = (op[0], tuple(op[1])) + tuple(op[2:])
+        op = (op[0], tuple(op[1])) + tuple(tuple(x) if isinstance(x, list) else x for x in op[2:])
         print(op, impl.apply(sched, op))
     va, vb = impl.violations(sched)
     print(sched.view(colour=False))
